@@ -59,7 +59,16 @@ Candidates == IF Shared THEN {CA, CB, Oth} ELSE IF Nested THEN {CA, CN, CN1, CN2
 
 HolderT == IF Site = "pair"
            THEN <<"dc", "HD", << <<"f", <<"tuple", << <<"discr", Root, DOpts>>, <<"discr", Root2, DOpts>> >> >>, <<"req">>, <<>> >> >>, <<>> >>
+           \* Site = "fieldopt" / "fieldlist": the Annotated carrying the Discriminator wraps the base INDIRECTLY --
+           \* Annotated[Optional[R], D] / Annotated[List[R], D]: the discriminated position is the class inside
+           ELSE IF Site = "fieldopt" THEN <<"dc", "HD", << <<"f", <<"discr", <<"opt", Root>>, DOpts>>, <<"req">>, <<>> >> >>, <<>> >>
+           ELSE IF Site = "fieldlist" THEN <<"dc", "HD", << <<"f", <<"discr", <<"list", Root>>, DOpts>>, <<"req">>, <<>> >> >>, <<>> >>
            ELSE <<"dc", "HD", << <<"f", <<"discr", Root, DOpts>>, <<"req">>, <<>> >> >>, <<>> >>
+FieldSites == {"field", "fieldopt", "fieldlist"}
+WrapIn(j) == IF Site = "fieldlist" THEN L(<<j>>) ELSE j
+WrapOut(x) == IF Site = "fieldlist" THEN L(<<x>>) ELSE x
+HolderOf(r, j) == IF Site = "fieldopt" /\ IsNone(j) THEN Ok(<<"obj", "HD", <<None>> >>)
+                  ELSE IF IsOk(r) THEN Ok(<<"obj", "HD", <<WrapOut(r[2])>> >>) ELSE Err(<<"Invalid", "f", WrapIn(j), "HD">>)
 
 Body(t) == << <<S("v"), I(0)>>, <<S("x"), I(1)>>, <<S("y"), I(2)>>, <<S("z"), I(3)>>, <<S("w"), I(4)>> >>
            \o (IF t = "" THEN <<>> ELSE << <<S("type"), S(t)>> >>)
@@ -87,8 +96,7 @@ Outcome(j) ==
   CASE Site = "pair" -> PairOf(UnpackDiscr(defined, Root, DOpts, Cx, j[2][1]), UnpackDiscr(defined, Root2, DOpts, Cx, j[2][2]), j)
     [] Site = "config" -> UnpackDiscr(defined, Root, DOpts, Cx, j)
     [] Site = "codec"  -> UnpackDiscr(defined, Root, DOpts, Cx, j)
-    [] Site = "field"  -> LET r == UnpackDiscr(defined, Root, DOpts, Cx, j) IN
-                          IF IsOk(r) THEN Ok(<<"obj", "HD", <<r[2]>> >>) ELSE Err(<<"Invalid", "f", j, "HD">>)
+    [] Site \in FieldSites -> HolderOf(UnpackDiscr(defined, Root, DOpts, Cx, j), j)
 
 \* ---- implementation-level registry: tag -> class name, filled lazily by walking the subclasses
 RegLookup(reg, t) == IF \E p \in reg : p[1] = t THEN (CHOOSE p \in reg : p[1] = t)[2] ELSE "#miss"
@@ -129,8 +137,8 @@ PairImpl(j) ==
       regB == IF RegMode = "shared" THEN regA1 ELSE registry2
       r2 == PosResult(regB, Refilled2, j2)
   IN PairOf(r1, r2, j)
-ImplWrapped(j) == IF Site = "pair" THEN PairImpl(j) ELSE IF Site # "field" THEN ImplResult(j)
-                  ELSE LET r == ImplResult(j) IN IF IsOk(r) THEN Ok(<<"obj", "HD", <<r[2]>> >>) ELSE Err(<<"Invalid", "f", j, "HD">>)
+ImplWrapped(j) == IF Site = "pair" THEN PairImpl(j) ELSE IF Site \notin FieldSites THEN ImplResult(j)
+                  ELSE HolderOf(ImplResult(j), j)
 
 \* without a field the statement does not fix the order among accepting subclasses
 AcceptableNames(j) == IF WithField THEN <<>>
@@ -173,7 +181,8 @@ VariantChoice == last[1] = "deser" => last[2] = last[3]
 RegistrySound == \A p \in registry \cup registry2 : IsDefined(AllDefined, p[2]) /\ p[1] \in TagsOf(ByName(AllDefined, p[2]), DOpts)
 \* a class without its own tag is never chosen by tag
 NoInheritedTag == (WithField /\ Tagger = "none" /\ Site # "pair" /\ last[1] = "deser" /\ IsOk(last[3])) =>
-                    LET o == IF Site = "field" THEN last[3][2][3][1] ELSE last[3][2] IN o[2] # "X"
+                    LET o == IF Site \in {"field", "fieldopt"} THEN last[3][2][3][1] ELSE IF Site = "fieldlist" THEN last[3][2][3][1][2][1] ELSE last[3][2] IN
+                    (Site = "fieldopt" /\ IsNone(o)) \/ o[2] # "X"
 
 EmitInv == (Len(hist) = MaxLen \/ ~ENABLED Next) => PrintT(ToJson(<<"beh", hist>>))
 View == <<defined, registry, registry2, decoder, hist>>
